@@ -485,7 +485,8 @@ def part_b(ctx):
 # Part C: include resolution
 # =====================================================================================================
 LOCS = ["cur", "d1", "d2", "sys", "d3"]
-LOCDIR = {"cur": "src", "d1": "d1", "d2": "d2", "sys": "sysroot/include", "d3": "d3"}
+LOCDIR = {"cur": "src", "d1": "d1", "d2": "d2", "sys": "sysroot/include", "d3": "d3", "cwd": "."}
+# "cwd": the directory the compiler runs in - on no search path (the including file lives in src/), never to be found
 C_INNER = ["none", "next<>", 'next""', "g+next<>"]
 C_MAIN = ["one", "twice", "g-then-one", "one-g-one"]
 C_FORMS = ['"c10h.h"', "<c10h.h>", "HQ", "HA", '"c10h.h" JUNK', "<c10h.h> JUNK"]
@@ -503,7 +504,7 @@ def c_files(subset, inner, chain_locs, gpos):
     for loc in subset:
         line = ""
         if inner != "none":
-            later = chain_locs if loc == "cur" else chain_locs[chain_locs.index(loc) + 1:]
+            later = chain_locs if loc in ("cur", "cwd") else chain_locs[chain_locs.index(loc) + 1:]
             if any(l in subset for l in later):
                 line = "#include_next %s\n" % ("<c10h.h>" if "<>" in inner else '"c10h.h"')
                 if inner.startswith("g+") and gpos:
@@ -525,9 +526,12 @@ def c_main(shape, form):
 def c_cases(tier):
     """(subset, inner, iorder, gpos, main shape, form, idirafter first?, separate -I arg?)"""
     subsets = [tuple(l for i, l in enumerate(LOCS) if m >> i & 1) for m in range(1, 32)]
+    subsets += [("cwd",), ("cur", "cwd"), ("d2", "cwd"), ("d3", "cwd")]
     full = tier != "quick"
     for sub in subsets:
         for inner in C_INNER:
+            if "cwd" in sub and inner != "none":
+                continue
             for iorder in (("d1", "d2"), ("d2", "d1")):
                 for gpos in ((None, "d1", "d2", "d3") if full else (None, "d2")):
                     if inner.startswith("g+") and not gpos:
@@ -559,11 +563,13 @@ def c_options(iorder, after_first, sep, for_gcc):
 
 def c_dirclass(path, chain_locs):
     for loc, d in LOCDIR.items():
+        if loc == "cwd":
+            continue
         if path.startswith(d + "/"):
             if loc in ("d1", "d2"):
                 return "I%d" % (chain_locs.index(loc) + 1)
             return {"cur": "includer-dir", "sys": "system", "d3": "idirafter"}[loc]
-    return "?"
+    return "compiler-cwd"
 
 
 def c_tokclass(t, chain_locs):
@@ -572,7 +578,7 @@ def c_tokclass(t, chain_locs):
     if t[:2] in ("B_", "E_", "G_", "R_"):
         loc = t[2:]
         if loc in LOCDIR:
-            k = c_dirclass(LOCDIR[loc] + "/", chain_locs)
+            k = c_dirclass(LOCDIR[loc] + "/x", chain_locs)
             return {"B_": "", "E_": "end-of-", "G_": "c10g.h-in-", "R_": "re-entered-"}[t[:2]] + k
     return "main-text" if t[0] == "M" else t
 
@@ -580,7 +586,7 @@ def c_tokclass(t, chain_locs):
 def c_task(args):
     chibicc, wd, cases = args
     res = {"n": 0, "judged": 0, "disagree": 0, "ref_rejected": 0, "undef": 0, "viol": {}, "disagree_ex": None,
-           "outcomes": set(), "runs": 0}
+           "outcomes": set(), "runs": 0, "rejections_expected": 0}
     last_tree = None
     files = {}
     for case in cases:
@@ -590,7 +596,7 @@ def c_task(args):
         if tree_key != last_tree:
             shutil.rmtree(wd, ignore_errors=True)
             for d in LOCDIR.values():
-                os.makedirs(os.path.join(wd, d))
+                os.makedirs(os.path.join(wd, d), exist_ok=True)
             os.symlink(chibicc, os.path.join(wd, "sysroot/chibicc"))
             files = c_files(sub, inner, chain_locs, gpos)
             for rel, txt in files.items():
@@ -601,15 +607,37 @@ def c_task(args):
         with open(os.path.join(wd, "src/main.c"), "w") as f:
             f.write(main)
         res["n"] += 1
-        allf = {"/" + k: v for k, v in files.items()}
+        allf = {os.path.normpath("/" + k): v for k, v in files.items()}
         allf["/src/main.c"] = main
         m = M.Cpp(allf, ["/" + LOCDIR[l] for l in chain_locs])
+        argv = (["sysroot/chibicc", "-cc1", "-E"] + c_options(iorder, after_first, sep, False)
+                + ["-cc1-input", "src/main.c", "src/main.c"])
+        sg, og, eg = core.run_limited(GCC + c_options(iorder, after_first, sep, True) + ["src/main.c"], cwd=wd, timeout=20)
         try:
             exp = m.run("/src/main.c")
-        except (M.Undef, M.Reject):
+        except M.Undef:
             res["undef"] += 1
             continue
-        sg, og, eg = core.run_limited(GCC + c_options(iorder, after_first, sep, True) + ["src/main.c"], cwd=wd, timeout=20)
+        except M.Reject:
+            # the header is on no search path for this form: the unit is invalid and must be rejected
+            if sg == 0:
+                res["disagree"] += 1
+                res["disagree_ex"] = res["disagree_ex"] or (case, "rejection", lex(og))
+                continue
+            res["judged"] += 1
+            res["rejections_expected"] += 1
+            sc, oc, ec = core.run_limited(argv, cwd=wd, timeout=20)
+            res["runs"] += 1
+            if sc == 0:
+                got = lex(oc)
+                frm = [c_tokclass(t, chain_locs) for t in got if t[:2] == "B_"]
+                sig = "#include%s|want=rejected|got=%s" % ('""' if '"' in form or form == "HQ" else "<>", frm[0] if frm else "accepted")
+                v = res["viol"].setdefault(sig, [0, None])
+                v[0] += 1
+                size = sum(len(t) for t in files.values()) + len(main)
+                if v[1] is None or size < v[1][0]:
+                    v[1] = (size, dict(files), main, c_options(iorder, after_first, sep, False), ["<rejected>"], got, str(sc), ec[-300:], case)
+            continue
         if sg != 0:
             res["ref_rejected"] += 1
             continue
@@ -619,8 +647,6 @@ def c_task(args):
             continue
         res["judged"] += 1
         res["outcomes"].add(tuple(exp))
-        argv = (["sysroot/chibicc", "-cc1", "-E"] + c_options(iorder, after_first, sep, False)
-                + ["-cc1-input", "src/main.c", "src/main.c"])
         sc, oc, ec = core.run_limited(argv, cwd=wd, timeout=20)     # headers carry re-entry guards: no unbounded recursion
         res["runs"] += 1
         got = lex(oc) if sc == 0 else None
@@ -657,6 +683,9 @@ def c_task(args):
 
 
 C_REPLAY = ("mkdir -p sysroot/include && ln -sf $CHIBICC sysroot/chibicc\n"
+            "if grep -q '<rejected>' expected.txt; then\n"
+            "  sysroot/chibicc -cc1 -E $(cat opts.txt) -cc1-input src/main.c src/main.c > got.txt 2> err.txt && exit 1\n"
+            "  exit 0\nfi\n"
             "sysroot/chibicc -cc1 -E $(cat opts.txt) -cc1-input src/main.c src/main.c > got.txt 2> err.txt || exit 1\n"
             + CMP + "\nexit 0")
 
@@ -674,7 +703,7 @@ def part_c(ctx):
         cs = [c for k in keys[i::ntask] for c in groups[k]]
         if cs:
             tasks.append((ctx.chibicc, os.path.join(ctx.work, "c_%d" % i), cs))
-    agg = {"n": 0, "judged": 0, "disagree": 0, "ref_rejected": 0, "undef": 0, "runs": 0}
+    agg = {"n": 0, "judged": 0, "disagree": 0, "ref_rejected": 0, "undef": 0, "runs": 0, "rejections_expected": 0}
     outcomes = set()
     dis = None
     for r in core.pmap(c_task, tasks):
@@ -701,7 +730,8 @@ def part_c(ctx):
         raise core.HarnessError("part C vacuous: %s" % agg)
     ctx.cover(c_cases=agg["n"], c_judged=agg["judged"], c_distinct_expected_streams=len(outcomes),
               oracle_disagreements=agg["disagree"], ref_rejected=agg["ref_rejected"], skipped_undefined=agg["undef"],
-              traces_validated_against_impl=agg["judged"], c_process_runs=agg["runs"])
+              traces_validated_against_impl=agg["judged"], c_process_runs=agg["runs"],
+              c_expected_rejections=agg["rejections_expected"])
     ctx.sample({"part": "C", "case": "c10h.h in {cur,d1,d3}, every copy chains with #include_next <c10h.h>",
                 "files": c_files(("cur", "d1", "d3"), "next<>", ["d1", "d2", "sys", "d3"], None),
                 "main": c_main("twice", '"c10h.h"')})
